@@ -18,7 +18,7 @@ NA = {
  "C21": "Crash points in file-system writes; no verifier here models a crash.",
  "C22": "Crash points in RocksDB/file-store writes and restart recovery; no verifier here models a crash.",
  "C23": "Hot reload: equivalence of whole-engine executions (async Engine, tokio).",
- "C24": "PerSourceWatermarkTracker is chrono arithmetic over an FxHashMap<String,_>; both measured out of CBMC's reach; the late-data gate is inside Engine::process_inner.",
+ "C24": "PerSourceWatermarkTracker mutates entries through `FxHashMap::get_mut` (&mut returned into the map) and folds over `values()`: Verus cannot take that code unmodified (no &mut-returning map access, no map iterators) and rewriting it would be proving a model; CBMC cannot carry the FxHashMap<String,_> (measured) nor chrono arithmetic on symbolic instants; the late-data gate itself is inside Engine::process_inner (async engine).",
  "C25": "Trend counts vs brute-force enumeration over all streams; Hamlet/GRETA graph state with f64/big counters and sharing decisions; no function-level contract expresses it.",
  "C26": "Thread schedules; Kani has no threads, Verus would need the code rewritten with its permission types.",
  "C27": "Barrier interleavings and crash points across threads; same reason as C26.",
